@@ -30,12 +30,18 @@ def _job(job):
     out = {'id': job['id'], 'bad': [], 'n': 0, 'elab_same': 0}
     try:
         base_mod, base_rules = rr.compile_grammar(job['base'])
-        bw = rr.Wire(base_rules)
-        base_bodies, base_ign = bw.program()
-        base_wire = rr.inline_rx(' '.join(base_bodies), bw.rx)
     except Exception as exc:      # noqa: BLE001
         out['bad'].append(('harness', f'base spelling does not compile: {type(exc).__name__}: {exc}'))
         return out
+    try:
+        bw = rr.Wire(base_rules)
+        base_bodies, base_ign = bw.program()
+        base_wire = rr.inline_rx(' '.join(base_bodies), bw.rx)
+    except rr.Unsupported as exc:
+        if any(same for _, same in job['alts']):
+            out['bad'].append(('harness', f'base spelling has no core expression: {exc}'))
+            return out
+        base_wire = base_ign = None       # only behaviour is compared for this pair
     base_out = [rr.run_real_api(base_mod.parse, t, 0, True)[0] for t in job['inputs']]
     if job.get('prep'):
         # the intended expression (the harness's own tree, not what the translator made of the text) through the Lean
@@ -155,6 +161,27 @@ def build_jobs(tier, seed):
             ('start = Some("a" | "b")\n', 'start = ("a" | "b")+\n'),
     ]:
         jobs.append({'id': len(jobs), 'base': base, 'alts': [(alt, False)], 'inputs': inputs + longs + ['ac', 'abc', 'a,a,', 'c']})
+    # postfix operators applied to one another, and rules whose names equal a constructor's name up to case
+    for base, alt in [
+            ('start = ["<", Opt(Some("a")), ">"]\n', 'start = ["<", "a"+?, ">"]\n'),
+            ('start = ["<", Opt(Some("a")), ">"]\n', 'start = ["<", ("a"+)?, ">"]\n'),
+            ('start = ["<", Opt(List("a")), ">"]\n', 'start = ["<", "a"*?, ">"]\n'),
+            ('start = ["<", Opt(List("a", min_len=2, max_len=2)), ">"]\n', 'start = ["<", "a"{2}?, ">"]\n'),
+            ('start = ["<", Opt(List("a", min_len=1, max_len=2)), ">"]\n', 'start = ["<", "a"{1,2}?, ">"]\n'),
+            ('start = ["<", Some(Some("a")), ">"]\n', 'start = ["<", "a"++, ">"]\n'),
+            ('start = ["<", List(Some("a")), ">"]\n', 'start = ["<", "a"+*, ">"]\n'),
+            ('start = ["<", Opt(Opt("a")), ">"]\n', 'start = ["<", "a"??, ">"]\n'),
+            ('start = ["<", Some(Opt("a") << "b"), ">"]\n', 'start = ["<", ("a"? << "b")+, ">"]\n'),
+            ('left = "a"\nright = "b"\nstart = ["<", Left(left, right), ">"]\n', 'left = "a"\nright = "b"\nstart = ["<", left << right, ">"]\n'),
+            ('left = "a"\nright = "b"\nstart = ["<", Right(left, right), ">"]\n', 'left = "a"\nright = "b"\nstart = ["<", left >> right, ">"]\n'),
+            ('opt = Opt("a")\nstart = ["<", opt, ">"]\n', 'opt = "a"?\nstart = ["<", opt, ">"]\n'),
+            ('some = Some("a")\nlist = List("b")\nstart = ["<", some, list, ">"]\n', 'some = "a"+\nlist = "b"*\nstart = ["<", some, list, ">"]\n'),
+            ('sep = Sep("a", ",")\nstart = ["<", sep, ">"]\n', 'sep = "a" // ","\nstart = ["<", sep, ">"]\n'),
+            ('seq = Seq("a", "b")\nchoice = Choice("a", "b")\nstart = ["<", seq | choice, ">"]\n', 'seq = ["a", "b"]\nchoice = "a" | "b"\nstart = ["<", seq | choice, ">"]\n'),
+            ('skip = Skip("a")\nexpect = Expect("b")\nstart = ["<", skip, expect, "b", ">"]\n', 'skip = Skip("a")\nexpect = Expect("b")\nstart = ["<", skip, expect, "b", ">"]\n'),
+    ]:
+        jobs.append({'id': len(jobs), 'base': base, 'alts': [(alt, False)],
+                     'inputs': ['<' + t + '>' for t in G.all_inputs('ab', 3) + ['a,a', 'a,b', 'a,', 'aab', 'abb', 'bbb']] + ['<', '', '<a']})
     # grouping of un-parenthesised operators
     for i in range(n // 2):
         flat, grouped = flat_chain(rng)
